@@ -70,6 +70,7 @@ type SpecFunc struct {
 	Rec      bool
 	Uninterp bool
 	Macro    bool
+	Axioms   []*Clause // assumed facts about an uninterpreted function (trusted base)
 	Src      string
 }
 
@@ -116,7 +117,7 @@ func newContractDB() *ContractDB {
 	return &ContractDB{Funcs: map[string]*Contract{}, Specs: map[string]*SpecFunc{}, Lemmas: map[string]*Lemma{}, Consts: map[string]string{}, Ghosts: map[string]string{}}
 }
 
-var keywordRe = regexp.MustCompile(`^(package|func|requires|ensures|modifies|mode|loop|invariant|decreases|hint|unfold|use|induct|may_panic|trusted|abstracts|inline|intonly|witness|property|spec|lemma|struct|global|ghost|noframe|const)\b`)
+var keywordRe = regexp.MustCompile(`^(package|axiom|func|requires|ensures|modifies|mode|loop|invariant|decreases|hint|unfold|use|induct|may_panic|trusted|abstracts|inline|intonly|witness|property|spec|lemma|struct|global|ghost|noframe|const)\b`)
 
 // stripComment removes a trailing `// ...` that is outside string literals
 func stripComment(s string) string {
@@ -380,6 +381,7 @@ func (db *ContractDB) LoadFile(path, pkgPath string, trusted bool) error {
 	var cur *Contract
 	var curLemma *Lemma
 	var curLoop *LoopSpec
+	var lastSpec *SpecFunc
 	curPkg := pkgPath
 	for _, st := range stmts {
 		kw, rest := splitKeyword(st.text)
@@ -475,7 +477,17 @@ func (db *ContractDB) LoadFile(path, pkgPath string, trusted bool) error {
 				sf.Uninterp = true
 			}
 			db.Specs[sf.Name] = sf
+			lastSpec = sf
 			cur, curLemma, curLoop = nil, nil, nil
+		case "axiom":
+			if lastSpec == nil {
+				return fmt.Errorf("%s: axiom without a preceding spec", st.src)
+			}
+			cl, err := parseClause(rest, st.src)
+			if err != nil {
+				return err
+			}
+			lastSpec.Axioms = append(lastSpec.Axioms, cl)
 		case "struct":
 			db.Structs = append(db.Structs, &StructCheck{Text: rest, Src: st.src, Pkg: curPkg})
 		case "global":
